@@ -435,10 +435,10 @@ def _dist_validate_args(parser, namespace):
         for pkg in namespace.domain.all_installed_repos:
             installed_dist.update(iflatten_instance(pkg.distfiles))
 
-    # exclude distfiles for existing ebuilds or fetch restrictions
-    if namespace.exclude_fetch_restricted or (
-        namespace.exclude_exists and not namespace.restrict
-    ):
+    # exclude distfiles for existing ebuilds or fetch restrictions -- also for
+    # targeted runs, whose name based file selection can pick up the distfiles
+    # of other packages (foo-bar-1.tar.gz for target foo)
+    if namespace.exclude_fetch_restricted or namespace.exclude_exists:
         for pkg in repo:
             exists_dist.update(
                 iflatten_instance(getattr(pkg, "_raw_pkg", pkg).distfiles)
